@@ -492,6 +492,10 @@ pub fn run_tasks(
                 }
                 match d.response {
                     Some(resp) => {
+                        rec_who(-2);
+                        if REC_ON.with(|o| o.get()) {
+                            rec_push(TaskEvent::Rx { idx: resp.get(17).copied().unwrap_or(0) });
+                        }
                         if rx.receive_frame(&resp).is_err() {
                             stats.rx_errors += 1;
                         }
@@ -511,9 +515,11 @@ pub fn run_tasks(
             flags[t].0.store(false, Ordering::SeqCst);
             stats.polls += 1;
             let mut cx = Context::from_waker(&wakers[t]);
+            rec_who(t as i32);
             if tasks[t].as_mut().poll(&mut cx).is_ready() {
                 done[t] = true;
             }
+            rec_who(-1);
 
             // Drain everything that became sendable during the poll.
             while let Some(frame) = tx.next_sendable_frame() {
@@ -578,6 +584,106 @@ pub fn run_tasks(
             }
         }
     }
+}
+
+// ---------------------------------------------------------------------------------------------
+// Frame-level event recorder for `run_tasks` (uses ethercrab's verification hooks)
+// ---------------------------------------------------------------------------------------------
+
+/// What happened to a frame slot, as far as an application task can tell.
+#[derive(Debug, Clone, PartialEq, Eq)]
+pub enum TaskEvent {
+    /// Task claimed a free slot.
+    Claim { task: i32, slot: u8 },
+    /// Task tried to claim a slot that is in use.
+    ClaimFail { task: i32, slot: u8 },
+    /// The slot's frame got its (first) datagram index.
+    Index { task: i32, slot: u8, idx: u8 },
+    /// The transmit side took the frame.
+    Send { slot: u8 },
+    /// A response frame with this first datagram index was handed to the receive side.
+    Rx { idx: u8 },
+    /// The receive side accepted the response into this slot.
+    Deliver { slot: u8 },
+    /// The slot was set free again (task = who did it, -1 transmit side, -2 receive side).
+    Release { task: i32, slot: u8 },
+}
+
+thread_local! {
+    static REC_WHO: std::cell::Cell<i32> = const { std::cell::Cell::new(-3) };
+    static REC_ON: std::cell::Cell<bool> = const { std::cell::Cell::new(false) };
+    static REC_STATE: RefCell<[u8; 256]> = const { RefCell::new([0u8; 256]) };
+    static REC_LOG: RefCell<Vec<TaskEvent>> = const { RefCell::new(Vec::new()) };
+}
+
+const REC_MAX: usize = 20_000;
+
+fn rec_push(e: TaskEvent) {
+    REC_LOG.with(|l| {
+        let mut l = l.borrow_mut();
+        if l.len() < REC_MAX {
+            l.push(e);
+        }
+    });
+}
+
+fn rec_hook(site: ethercrab::verif::Site, slot: u8, a: u32, b: u32) {
+    use ethercrab::verif::Site;
+    if !REC_ON.with(|o| o.get()) {
+        return;
+    }
+    let who = REC_WHO.with(|w| w.get());
+    match site {
+        Site::SwapState => {
+            // The hook fires before the compare-exchange; on this single thread it succeeds exactly
+            // when the tracked state is the expected one.
+            let ok = REC_STATE.with(|s| {
+                let mut s = s.borrow_mut();
+                if u32::from(s[usize::from(slot)]) == a {
+                    s[usize::from(slot)] = b as u8;
+                    true
+                } else {
+                    false
+                }
+            });
+            match (a, b, ok) {
+                (0, 1, true) => rec_push(TaskEvent::Claim { task: who, slot }),
+                (0, 1, false) => rec_push(TaskEvent::ClaimFail { task: who, slot }),
+                (2, 3, true) => rec_push(TaskEvent::Send { slot }),
+                (4, 5, true) => rec_push(TaskEvent::Deliver { slot }),
+                (_, 0, true) => rec_push(TaskEvent::Release { task: who, slot }),
+                _ => {}
+            }
+        }
+        Site::SetState => {
+            REC_STATE.with(|s| s.borrow_mut()[usize::from(slot)] = a as u8);
+            if a == 0 {
+                rec_push(TaskEvent::Release { task: who, slot });
+            }
+        }
+        Site::FpSet => rec_push(TaskEvent::Index { task: who, slot, idx: a as u8 }),
+        Site::Reset => REC_STATE.with(|s| *s.borrow_mut() = [0u8; 256]),
+        _ => {}
+    }
+}
+
+/// Start recording (slot states are taken to be "free": call when nothing is in flight).
+pub fn rec_start() {
+    REC_LOG.with(|l| l.borrow_mut().clear());
+    REC_STATE.with(|s| *s.borrow_mut() = [0u8; 256]);
+    REC_ON.with(|o| o.set(true));
+    ethercrab::verif::set_hook(Some(rec_hook));
+}
+
+/// Stop recording and take the events.
+pub fn rec_take() -> Vec<TaskEvent> {
+    REC_ON.with(|o| o.set(false));
+    ethercrab::verif::set_hook(None);
+    REC_LOG.with(|l| std::mem::take(&mut *l.borrow_mut()))
+}
+
+fn rec_who(w: i32) {
+    REC_WHO.with(|x| x.set(w));
 }
 
 /// Everything needed to create a `MainDevice`: leaked `'static` storage, split once.
